@@ -249,6 +249,8 @@ def selftest(ctx):
 
 def run(ctx):
     quick = ctx.tier == "quick"
+    # unbounded: TLAPS proves that the reference pixel survives compress + expand for every factor
+    ctx.cov["tlaps_obligations_proved"] = common.run_tlapm("ExpandProof", os.path.join(ctx.workdir, "tlaps"))
     res = ctx.tlc("MC_Expand", common.cfg(
         spec="Spec", constants={"MaxR": 14 if quick else 24, "MaxF": 16 if quick else 32,
                                 "SmallR": 5 if quick else 6, "Vals": {0, 1, 2}},
